@@ -411,7 +411,7 @@ def run_check(prop_id, tier, verif_seed, budget_s=None, workers=None, max_runs=N
                   "PYTHONHASHSEED": os.environ.get("PYTHONHASHSEED")},
         "runs_per_hour": int(n_eval / max(wall, 1e-9) * 3600),
         "logical_steps": steps,
-        "simulated_time": "n/a - cm-colors has no clocks or timers; time is counted in logical steps (I/O events, scheduler steps)",
+        "simulated_time": "n/a - cm-colors reads no clock and has no timers on the pinned tree (probe clock_reads_by_cm_colors = 0; a simulated clock whose reads jump forward is installed in C15 windows to catch code that starts to); time is counted in logical steps (I/O events, scheduler steps)",
         "probe_hits_and_faults_fired": dict(sorted(stats.items())),
         "skipped_boundary": skipped,
         "distinct_by_measure": {k: len(v) for k, v in sorted(measures.items())},
